@@ -16,6 +16,12 @@ VERD = {0: 'silent (exit 0)', 1: 'FALSE ALARM (exit 1)', 2: 'analysis-incomplete
 
 def run_one(d):
     sd = os.path.join(V, 'refactored', d)
+    try:
+        sup = json.load(open(os.path.join(sd, 'meta.json'))).get('superseded_by')
+    except Exception:
+        sup = None
+    if sup:
+        return d, -1, 'SUPERSEDED ' + sup
     prop = d.split('-')[0]
     props = claimed if ALL else [prop]
     r = subprocess.run([os.path.join(V, 'bin', 'try_patch.sh'), os.path.join(sd, 'patch.diff')] + props, stdout=subprocess.PIPE, stderr=subprocess.STDOUT, universal_newlines=True)
@@ -35,7 +41,9 @@ with ThreadPoolExecutor(max_workers=6 if ALL else 10) as ex:
     for d, rc, out in ex.map(run_one, dirs):
         sd = os.path.join(V, 'refactored', d)
         meta = json.load(open(os.path.join(sd, 'meta.json')))
-        if 'PATCH DOES NOT APPLY' in out or 'patch does not apply' in out:
+        if out.startswith('SUPERSEDED '):
+            verdict, rules = 'no longer behaviour-preserving on HEAD: ' + out[11:].split(':')[0], []
+        elif 'PATCH DOES NOT APPLY' in out or 'patch does not apply' in out:
             verdict, rules = 'patch does not apply to HEAD', []
         else:
             rules = sorted(set(re.findall(r'^  rule      (\S+)', out, re.M))) + sorted(set(re.findall(r'^UNDECIDED property=\S+ rule=(\S+)', out, re.M)))
@@ -51,7 +59,7 @@ with ThreadPoolExecutor(max_workers=6 if ALL else 10) as ex:
             rows.append((d, str(meta.get('summary', ''))[:120].replace('|', '/').replace('\n', ' '), verdict, ', '.join(rules)))
             print(d, verdict, rules)
         json.dump(meta, open(os.path.join(sd, 'meta.json'), 'w'), indent=1)
-        if rc != 0:
+        if rc > 0:
             print('\n'.join(l for l in out.split('\n') if 'detail' in l or 'UNDECIDED' in l or 'BROKEN' in l or l.startswith('VIOLATION'))[:1500])
 if not only:
     if ALL:
